@@ -321,6 +321,82 @@ static void cold_trials(int trials, int nthreads) {
   fprintf(res, "K %d %ld %ld\n", done, cold_mm[1], cold_mm[0]);
 }
 
+/* ---------------------------------------------------------------- gap trials
+ * A victim thread assembles a program on an instance, destroys it, and assembles the same text again on a NEW instance with
+ * other options. In between, two neighbour threads perform an EXACT number D of library calls of one kind on their own instances
+ * (option setter calls, or create + destroy pairs). D sweeps through 2^8, 2^15, 2^16, 2^17 -16 .. +16: anything process-wide that
+ * counts calls in a narrow type and is consulted by another thread's instance shows at one of these gaps. Results are compared
+ * with the single-threaded reference. */
+static pthread_barrier_t gbar;
+static long gap_d;
+static int gap_kind, gap_stop;
+
+static void *gap_neighbour(void *arg) {
+  long id = (long)arg;
+  assemblyline_t al = asm_create_instance(NULL, 0);
+  for (;;) {
+    pthread_barrier_wait(&gbar); /* trial start: gap_d, gap_kind are set */
+    if (gap_stop)
+      break;
+    long mine = gap_d / 2 + (id == 0 ? gap_d % 2 : 0);
+    if (gap_kind == 0)
+      for (long i = 0; i < mine; i++)
+        asm_mov_imm(al, (enum asm_opt)(i & 1));
+    else if (gap_kind == 1)
+      for (long i = 0; i < mine; i++)
+        asm_destroy_instance(asm_create_instance(NULL, 0));
+    else
+      for (long i = 0; i < mine; i++)
+        asm_sib(al, (enum asm_opt)(i & 1));
+    pthread_barrier_wait(&gbar); /* neighbours done */
+  }
+  asm_destroy_instance(al);
+  return NULL;
+}
+
+static void gap_trials(void) {
+  static const long BASES[] = {256, 32768, 65536, 131072};
+  pthread_barrier_init(&gbar, NULL, 3);
+  pthread_t nb[2];
+  for (long i = 0; i < 2; i++)
+    pthread_create(&nb[i], NULL, gap_neighbour, (void *)i);
+  uint8_t *buf = malloc(BUFSZ);
+  unsigned rs = seed0 + 17;
+  long trials = 0, mm = 0;
+  for (int b = 0; b < 4; b++)
+    for (long d = -16; d <= 16; d++)
+      for (int kind = 0; kind < 3; kind++) {
+        if (kind == 1 && BASES[b] > 65536 && (d & 3))
+          continue; /* create + destroy pairs are slower: fewer of the long ones */
+        int p = rand_r(&rs) % nprog, mA = rand_r(&rs) % NMASK, mB = (mA + 1 + rand_r(&rs) % (NMASK - 1)) % NMASK;
+        if (strlen(prog[p]) > 8000)
+          p = 0;
+        struct ref got;
+        one(p, mA, 0, 1, buf, &got, &rs, 0, 0, 99);
+        gap_d = BASES[b] + d;
+        gap_kind = kind;
+        pthread_barrier_wait(&gbar);
+        pthread_barrier_wait(&gbar);
+        one(p, mB, 0, 1, buf, &got, &rs, 0, 0, 99);
+        struct ref *w = &REF[RIDX(p, mB, 0, 1)];
+        trials++;
+        if (got.rc != w->rc || got.off != w->off || got.hash != w->hash) {
+          mm++;
+          if (mm <= 10)
+            fprintf(res, "M gap D=%ld kind=%d prog=%d maskA=%d maskB=%d got=%d/%d/%016llx want=%d/%d/%016llx\n", gap_d, kind, p, mA, mB, got.rc, got.off,
+                    (unsigned long long)got.hash, w->rc, w->off, (unsigned long long)w->hash);
+        }
+      }
+  gap_stop = 1;
+  pthread_barrier_wait(&gbar);
+  for (int i = 0; i < 2; i++)
+    pthread_join(nb[i], NULL);
+  free(buf);
+  mismatches += mm;
+  ops += trials;
+  fprintf(res, "G %ld %ld\n", trials, mm);
+}
+
 static int unhex(const char *h, char **out) {
   size_t n = strlen(h);
   char *b = malloc(n / 2 + 1);
@@ -416,6 +492,8 @@ int main(int argc, char **argv) {
       return 0;
     }
   }
+  if (getenv("THREADS_GAP")) /* (a few runs per build flavour only: 360 trials of up to 131 072 calls each) */
+    gap_trials();
   pthread_barrier_init(&bar, NULL, (unsigned)nthreads);
   pthread_t th[64];
   for (long i = 0; i < nthreads; i++)
